@@ -95,12 +95,16 @@ func newEvent(eventType string, ts time.Time, payload interface{}) (Event, error
 	return Event{Type: eventType, TS: formatTime(ts), Data: data}, nil
 }
 
-func newShortID(existing map[string]*Task) (string, error) {
+func newShortID(existing map[string]*Task, pruned map[string]TombstoneInfo) (string, error) {
 	const maxAttempts = 64
 	for i := 0; i < maxAttempts; i++ {
 		id, err := shortID()
 		if err != nil {
 			return "", err
+		}
+		if _, gone := pruned[id]; gone {
+			// Replay ignores everything about a pruned id, so it must never be reissued.
+			continue
 		}
 		if _, exists := existing[id]; !exists {
 			return id, nil
